@@ -230,14 +230,14 @@ func (c *Cluster) serveRawSASL(b *Broker, sc *memnet.ServerConn, st *connState, 
 	}
 	if cfg.CloseAtStep != 0 && cfg.CloseAtStep == st.step+1 {
 		st.step++
-		ex.Outcome = "dropped-before"
+		c.upd(func() { ex.Outcome = "dropped-before" })
 		c.authEvent(AuthEvent{ConnID: sc.ID(), Mech: st.saslMech, Verdict: "closed", Step: st.step, Raw: true, ReqSeq: ex.Seq})
 		sc.MarkDead()
 		return false
 	}
 	resp, code, _, done := c.authStep(sc, st, cfg, token, ex.Seq)
 	if code != 0 {
-		ex.Outcome = "closed"
+		c.upd(func() { ex.Outcome = "closed" })
 		ex.ErrorCode = int16(code) // not sent: there is no error channel in a raw exchange
 		sc.MarkDead()
 		return false // brokers close the connection on a failed raw exchange
@@ -246,7 +246,7 @@ func (c *Cluster) serveRawSASL(b *Broker, sc *memnet.ServerConn, st *connState, 
 	var lb [4]byte
 	binary.BigEndian.PutUint32(lb[:], uint32(len(resp)))
 	if _, err := sc.Write(append(lb[:], resp...)); err != nil {
-		ex.Outcome = "closed"
+		c.upd(func() { ex.Outcome = "closed" })
 		return false
 	}
 	ex.RespBytes = 4 + len(resp)
